@@ -136,7 +136,7 @@ func ZZ_C08_RuntimeFaults(sv *zzsv.T) {
 	if src == "return sprintf(a, i, j);" && at == tString {
 		// format strings: hostile but concrete (a symbolic format would be
 		// enumerated byte by byte)
-		fm := []string{"%d %d", "%", "%d", "%!", "%v|%v|%v", "no verbs"}
+		fm := []string{"%d %d", "%", "%d", "%v|%v|%v", "no verbs"}
 		a = zStr(fm[sv.Choice("format", len(fm))])
 	} else if at == tFloat {
 		// crashes, not arithmetic, are the subject: representative floats
